@@ -331,11 +331,17 @@ def _check(ctx, tmp):
         return "".join(rng.choice("abcdefghijklmnopqrstuvwxyz") for _ in range(n))
     wt = [("usd", "usdollar", 1.0), ("eur", "euro", round(10 ** rng.uniform(-0.5, 0.5), 6) + 0.123456789)]
     used_s, used_n = {"usd", "eur"}, {"usdollar", "euro", "dollar"}
+    odd_seps = ["\x0b", "\x0c", "\x1c", "\x1d", "\x1e", "\x85", "\u2028", "\u2029", "\t", ";", "#", "="]
+    rng.shuffle(odd_seps)
     special = [1e-05, 123456.789, 0.1 + 0.2, 1.080078396710183e-05, 5157548.360942523, 3.0, 1 / 3]
     while len(wt) < ctx.n(24, 120):
         s, n = "q" + rand_word(rng.choice([2, 3])), "n" + rand_word(rng.randrange(4, 11))
         if s in used_s or n in used_n or U.lookup_unit(s) is not None or U.lookup_unit(n) is not None or U.lookup_unit(n + "s") is not None:
             continue
+        if odd_seps and rng.random() < 0.7:
+            # scraped names are written verbatim: characters that some line-splitting rules (str.splitlines) treat as line ends, but
+            # that are neither '\n' nor '\r', are ordinary content of a name — the file still holds one row per '\n'-terminated line
+            n = n[:3] + odd_seps.pop() + n[3:]
         used_s.add(s); used_n.add(n)
         r = special.pop() if special and rng.random() < 0.4 else 10 ** rng.uniform(-5, 5)
         wt.append((s, n, r))
